@@ -80,12 +80,14 @@ static void collectEdges(const IG& g, std::vector<std::pair<P, P>>& out) {
 static void collectPolys(const IG& g, std::vector<const IG*>& out) { if (g.tag == "Y" && !g.seqs[0].empty()) out.push_back(&g); for (auto& k : g.kids) collectPolys(k, out); }
 static bool isEmptyIG(const IG& g) { std::vector<P> v; collectVerts(g, v); return v.empty(); }
 
-struct Xf { int sym; ll tx, ty; int k; };
+struct Xf { int sym; ll tx, ty; int k; bool fp = false; double a = 1, b = 0, fx = 0, fy = 0; };   // fp: full-precision similarity x' = a x - b y + fx, y' = b x + a y + fy
 static P applySym(int s, P p) { if (s & 1) std::swap(p.x, p.y); if (s & 2) p.x = -p.x; if (s & 4) p.y = -p.y; return p; }
 static std::string ordTok(const Xf& x, ll v) { return hex(std::ldexp((double) v, x.k)); }
 static void emitSeq(const Xf& x, const Ring& s, std::string& out) {
     out += " xy " + std::to_string(s.size());
-    for (auto p : s) { P q = applySym(x.sym, p); out += " " + ordTok(x, q.x + x.tx) + " " + ordTok(x, q.y + x.ty); }
+    for (auto p : s) { P q = applySym(x.sym, p);
+        if (x.fp) { double X = x.a * (double) q.x - x.b * (double) q.y + x.fx, Y = x.b * (double) q.x + x.a * (double) q.y + x.fy; out += " " + hex(X) + " " + hex(Y); }
+        else out += " " + ordTok(x, q.x + x.tx) + " " + ordTok(x, q.y + x.ty); }
 }
 static void emitG(const Xf& x, const IG& g, std::string& out) {
     if (g.tag == "P" || g.tag == "L" || g.tag == "R") { out += " " + g.tag; emitSeq(x, g.seqs[0], out); return; }
@@ -314,7 +316,8 @@ int main(int argc, char** argv) {
         }
         GEOS_finish_r(h); return 0;
     }
-    if (argc < 5 || stream != "distance") { fprintf(stderr, "usage\n"); return 2; }
+    if (argc < 5 || (stream != "distance" && stream != "distance-fp")) { fprintf(stderr, "usage\n"); return 2; }
+    bool fpStream = stream == "distance-fp";
     uint64_t seed = std::stoull(argv[2]); long n = std::stol(argv[3]); Out out(argv[4]);
     // vh::Rng(seed) and vh::Rng(seed+1) are the same splitmix sequence shifted by one draw, and run_stream hands
     // consecutive seeds to its shards: derive a decorrelated state so that shards do not repeat each other's cases
@@ -370,6 +373,22 @@ int main(int argc, char** argv) {
         switch (r.below(5)) { case 0: case 1: x.tx = x.ty = 0; break; case 2: x.tx = r.range(-50, 50); x.ty = r.range(-50, 50); break;
                               case 3: x.tx = r.range(-5000, 5000); x.ty = r.range(-5000, 5000); break; default: x.tx = 1000000 + r.range(-999, 999); x.ty = -2000000 + r.range(-999, 999); }
         x.k = r.chance(50) ? 0 : r.range(-30, 30);
+        if (fpStream) {
+            // full-precision coordinates: the same shapes under a similarity with arbitrary double coefficients.  A contact that is
+            // not vertex-to-vertex would not survive the rounding of the map (it becomes a 1e-16 gap or overlap), so such pairs
+            // keep the grid transform; shared vertices, proper crossings and containment do survive.
+            std::vector<P> wa, wb; collectVerts(A, wa); collectVerts(B, wb);
+            std::vector<std::pair<P, P>> ea, eb; collectEdges(A, ea); collectEdges(B, eb);
+            bool fragile = false;
+            for (auto& e : eb) for (auto& v : wa) if (onSeg(e.first, e.second, v) && !(v == e.first) && !(v == e.second)) fragile = true;
+            for (auto& e : ea) for (auto& v : wb) if (onSeg(e.first, e.second, v) && !(v == e.first) && !(v == e.second)) fragile = true;
+            if (!fragile) {
+                x.fp = true; double ang = r.unit() * 6.283185307179586, sc = std::pow(10.0, r.unit() * 8 - 4);
+                x.a = std::cos(ang) * sc; x.b = std::sin(ang) * sc;
+                double off = r.chance(40) ? 0 : std::pow(10.0, r.unit() * 6) * sc; x.fx = (r.unit() - 0.5) * off; x.fy = (r.unit() - 0.5) * off;
+                out.count("fp_similarity");
+            } else out.count("fp_kept_on_grid_fragile_contact");
+        }
         out.count("cfg_" + cfg); out.count("types_" + typeName(A) + "_" + typeName(B));
         out.count(x.k == 0 ? "scale_1" : "scale_2^k"); out.count(x.tx == 0 && x.ty == 0 ? "translate_0" : std::llabs(x.tx) > 100000 ? "translate_1e6" : "translate_small");
         std::string sa = tokens(x, A), sb = tokens(x, B);
